@@ -33,9 +33,10 @@ def _bundle(hop=None, age=None, prev=True, t=1000, life=3600000, extra_first=Fal
     return dict(p=p, cs=cs)
 
 
-def _line(b, now, node, rt):
+def _line(b, now, node, rt, lifens=None):
     clock = now + OFFSET
-    l = "OPS %d %s ; UPD %s %d" % (clock, genb.show_bundle(b), genb.show_eid(node), rt)
+    pre = "" if lifens is None else " ; LIFENS %d" % lifens      # sub-millisecond part of the lifetime Duration (API only): must not matter
+    l = "OPS %d %s%s ; UPD %s %d" % (clock, genb.show_bundle(b), pre, genb.show_eid(node), rt)
     _B[l] = (b, now, node, rt)
     return l
 
@@ -55,6 +56,14 @@ def corpus():
         out.append(_line(_bundle(t=0, seq=seq, life=1000), 5000, NODE, 0))
         out.append(_line(_bundle(t=0, seq=seq, life=0, age=0), 2 ** 40, NODE, 0))
     out.append(_line(_bundle(t=1, seq=0, life=1000), 5000, NODE, 0))
+    # the exact instant creation + lifetime (expired) and the millisecond before (not expired), with a lifetime Duration that carries
+    # 0 / 1 / 999999 extra nanoseconds: the lifetime counts in whole milliseconds
+    for ns in (None, 1, 500000, 999999):
+        for t, life in ((1000, 5000), (1, 1), (2 ** 40, 3600000)):
+            out.append(_line(_bundle(t=t, life=life), t + life, NODE, 0, lifens=ns))
+            out.append(_line(_bundle(t=t, life=life), t + life - 1, NODE, 0, lifens=ns))
+            out.append(_line(_bundle(t=t, life=life, age=life - 1), t + life - 1, NODE, 1, lifens=ns))
+            out.append(_line(_bundle(t=t, life=life, age=life - 1), t + life - 1, NODE, 2, lifens=ns))
     # block processing control flags of the three blocks play no part in the forwarding update (reserved bits 0xF0 included)
     for fl in (0xF0, 0xFF, 0x08, 0x10):
         out.append(_line(_bundle(hop=(3, 3), age=5, bflags=(fl, fl, fl)), 5000, NODE, 7))
@@ -88,7 +97,8 @@ def cases(rng, tier):
         hop = rng.choice([None, None, (32, 1), (rng.randrange(256), rng.randrange(256)), (255, 254), (255, 255), (0, 0)])
         node = rng.choice([NODE, ("IPN", 2, 23, 0), ("NONE", 1, 0)])
         out.append(_line(_bundle(hop=hop, age=age, prev=rng.random() < 0.6, t=t, life=L, seq=rng.choice([0, 0, 1, 40, U64 - 1, rnd_u64(rng)]),
-                                 bflags=tuple(rng.choice([0, 0, 0, 1, 4, 16, 0xF0, 0xFF, 8, rng.randrange(256)]) for _ in range(3))), now, node, rt))
+                                 bflags=tuple(rng.choice([0, 0, 0, 1, 4, 16, 0xF0, 0xFF, 8, rng.randrange(256)]) for _ in range(3))), now, node, rt,
+                         lifens=rng.choice([None, None, None, 1, 999999, rng.randrange(1000000)])))
     return out
 
 
@@ -122,7 +132,12 @@ def oracle(line, out, mode):
     b, now, node, rt = _B[line]
     want, nb = _expect(b, now, node, rt)
     toks = out.split(" ")
-    # OK ; <ret> <bundle...> FINAL ...
+    # OK [; - <bundle...>] ; <ret> <bundle...> FINAL ...        (the optional first step is LIFENS)
+    if " ; LIFENS " in line:
+        semi = [i for i, t in enumerate(toks) if t == ";"]
+        if len(semi) < 2:
+            return "malformed output"
+        toks = ["OK"] + toks[semi[1]:]
     ret = toks[2]
     fin = toks.index("FINAL")
     got = genb.parse_bundle(genb.T(toks[3:fin]))
